@@ -1,5 +1,5 @@
 """C17: binary results are valid definite-length blocks in the requested byte order."""
-import json
+import json, random
 import lib, parser_common as pc
 
 def kind(rec, rel, hints):
@@ -14,14 +14,26 @@ def kind(rec, rel, hints):
 
 def run(pid, tier):
     rep = lib.Report('C17', tier)
-    rep.cov['rule'] = ('cases = one query whose handler emits (a) an array of 0..N elements (N = 2 quick, 3 thorough) of each element type (u/i 8,16,32,64, float, double) from 4 byte patterns, '
-                       'in NORMAL, SWAPPED and (8/16 bit) ASCII format, (b) blocks of length 0,1,2,9,10,11,99,100,101,255 with terminator bytes inside, (c) a streamed block of 1..4 bytes in every '
+    rep.cov['rule'] = ('cases = one query whose handler emits (a) an array of 0..N elements (N = 2 quick, 4 thorough) of each element type (u/i 8,16,32,64, float, double) from 4 byte patterns, '
+                       'in NORMAL, SWAPPED and (8/16 bit) ASCII format, longer arrays with all-different elements (up to 17 quick, 300 thorough), seeded random arrays of 0..300 random elements, (b) blocks of length 0,1,2,9,10,11,99,100,101,255 with terminator bytes inside, (c) a streamed block of 1..4 bytes in every '
                        'split of the data calls, (d) over-length data at every point, (e) header-only calls for 9..999999999; each followed by an integer item so that item counting is visible; '
                        'enumerated by TLC, executed, output bytes and errors validated by TLC; non-trivial = streamed in >= 2 calls, empty, refused, or header digit count changes')
     rep.assumptions += ['elements are given to the specification most-significant-byte first and converted to host memory order by the orchestrator',
                         'the code of the error raised for over-length block data is not specified']
-    n = 2 if tier == 'quick' else 3
-    scen = pc.gen(rep, 'C17', dict(MaxUnits=n), nparts=8)
+    n = 2 if tier == 'quick' else 4
+    scen = pc.gen(rep, 'C17', dict(MaxUnits=n, MaxSig=1 if tier == 'quick' else 2), nparts=8, timeout=1500)
+    # seeded random element values and lengths 0..300 (the specification computes the expected bytes)
+    rng = random.Random(lib.seed())
+    kinds = {1: ['au8', 'ai8'], 2: ['au16', 'ai16'], 4: ['au32', 'ai32', 'aflt'], 8: ['au64', 'ai64', 'adbl']}
+    base = next(s for s in scen if len(s['table']) == 1)
+    for _ in range(40 if tier == 'quick' else 400):
+        sz = rng.choice([1, 2, 4, 8])
+        cnt = rng.choice([0, 1, 2, 3, 5, 12, 13, 63, 64, 65, 127, 128, 129, 255, 256, 300, rng.randint(0, 300)])
+        fmt = rng.choice([1, 2] if sz > 2 else [0, 1, 2])
+        els = [[rng.randrange(256) for _ in range(sz)] for _ in range(cnt)]
+        sc = dict(base)
+        sc['scripts'] = [[1, 1, 0, [['r', rng.choice(kinds[sz]), fmt, cnt, els], ['r', 'i32', 7]]]]
+        scen.append(sc)
     obs = pc.execute(rep, scen, 'default', 'C17')
     pc.validate(rep, 'C17', scen, obs, 'C17-default', kindfn=kind, fields=pc.FIELDS['C06'] | {'errs', 'out.block-header'})
     # the build without device-dependent error information has its own branches in the result functions
